@@ -31,7 +31,7 @@ struct Tool {
   bool ordered;
   double tol = 1e-9;  // relative tolerance for unordered tools ("agree to rounding")
 };
-struct Cfg { int tool; int nt; std::string extra; };
+struct Cfg { int tool; int nt; std::string extra; bool ul = false; /* instants after mutex releases are scheduling points too */ };
 
 static std::vector<Tool> tools() {
   return {
@@ -146,7 +146,7 @@ static std::vector<std::string> split_ws(const std::string &s) {
   return v;
 }
 
-static void run_tool(const Tool &t, int nt, const std::string &extra, bool preload, const std::string &shmpath, const std::vector<int> &choices, int horizon) {
+static void run_tool(const Tool &t, int nt, const std::string &extra, bool preload, const std::string &shmpath, const std::vector<int> &choices, int horizon, bool ul = false) {
   std::vector<std::string> av{t.exe};
   for (auto &a : t.args) av.push_back(a);
   av.push_back("--nt");
@@ -162,6 +162,7 @@ static void run_tool(const Tool &t, int nt, const std::string &extra, bool prelo
     setenv("VS_CHOICES", vsx::sched_str(choices).c_str(), 1);
     setenv("VS_HORIZON", std::to_string(horizon).c_str(), 1);
     setenv("LD_PRELOAD", PRELOAD.c_str(), 1);
+    if (ul) setenv("VS_UNLOCK_POINTS", "1", 1); else unsetenv("VS_UNLOCK_POINTS");
   }
   setenv("OMP_NUM_THREADS", "1", 1);
   execv(argv[0], argv.data());
@@ -237,10 +238,10 @@ int main(int argc, char **argv) {
       if (!ref.count(kv.first)) bad(mode + "-extra-output-file", kv.first + " is not written by the single-thread run");
     return v;
   };
-  auto parsecfg = [&](std::map<std::string, std::string> &m) { return Cfg{atoi(m["tool"].c_str()), atoi(m["nt"].c_str()), m["extra"]}; };
-  auto cfgstr = [&](const Cfg &c) { return "tool=" + std::to_string(c.tool) + ";nt=" + std::to_string(c.nt) + ";extra=" + c.extra; };
+  auto parsecfg = [&](std::map<std::string, std::string> &m) { return Cfg{atoi(m["tool"].c_str()), atoi(m["nt"].c_str()), m["extra"], m["ul"] == "1"}; };
+  auto cfgstr = [&](const Cfg &c) { return "tool=" + std::to_string(c.tool) + ";nt=" + std::to_string(c.nt) + ";extra=" + c.extra + (c.ul ? ";ul=1" : ""); };
   auto runner = [&](const Cfg &c) {
-    ex.body = [&, c](vs_shared *, const std::vector<int> &ch) { run_tool(T[c.tool], c.nt, c.extra, true, shmpath, ch, horizon); };
+    ex.body = [&, c](vs_shared *, const std::vector<int> &ch) { run_tool(T[c.tool], c.nt, c.extra, true, shmpath, ch, horizon, c.ul); };
   };
   auto cleanup = [&]() { std::string cmd = "rm -rf '" + shmdir + "'"; if (shmdir != "." && system(cmd.c_str())) {} };
 
@@ -280,9 +281,16 @@ int main(int argc, char **argv) {
         cfgs.push_back({tool, nt, extra});
       }
   if (thorough) for (int tool = 0; tool < (int)T.size(); tool++) cfgs.push_back({tool, 4, ""});
+  // the instant after every mutex release as an additional scheduling point (bound 1): shows the consequences of an access moved
+  // out of a critical section directly, without waiting for the race detector
+  for (int tool = 0; tool < 2; tool++)
+    for (std::string extra : {"--nframes 2", ""}) {
+      if (!thorough && (tool != 0 || extra == "")) continue;
+      cfgs.push_back({tool, 2, extra, true});
+    }
   R.rule = "the unmodified csg_stat (ordered) and csg_orientcorr (unordered) executables under LD_PRELOAD=libvsched_preload.so on a generated 4-molecule, "
            "4-frame system (box volume differs per frame): all schedules with <= k preemptions (k=1 quick, 2 thorough; scheduling points at thread create/start/exit, "
-           "mutex acquire, join) for nt in {2,3,(4)} x frame selections; oracle: no deadlock/livelock/crash and output files byte-identical (ordered) / equal to 1e-9 "
+           "mutex acquire, join; for nt=2 also with the instant after every mutex release at k=1) for nt in {2,3,(4)} x frame selections; oracle: no deadlock/livelock/crash and output files byte-identical (ordered) / equal to 1e-9 "
            "relative (unordered) to the single-thread run. distinct_nontrivial = distinct (config, schedule trace) pairs";
   long long unit = 0, schedules = 0, points = 0;
   bool stop = false;
@@ -290,7 +298,7 @@ int main(int argc, char **argv) {
     if (stop) break;
     reference(c);
     runner(c);
-    int bound = thorough ? (c.nt <= 2 ? 2 : 1) : 1;
+    int bound = thorough && !c.ul ? (c.nt <= 2 ? 2 : 1) : 1;
     auto on_exec = [&](const vsx::Exec &x) -> bool {
       schedules++; points += x.npoints(); R.eval();
       Verdict v = judge(c, x);
